@@ -140,6 +140,9 @@ def build_cases(tier):
             add("bad_name:base_client_name", IC, section={"base_client_name": bad, "base_client_file_path": "mybase.py"}, files={"mybase.py": f"class {bad}:\n    pass\n" if bad.isidentifier() else "class X:\n    pass\n"},
                 names_in_msg=[bad], tags={"cfg:name:base_client_name", f"badname:{bad!r}"}, states=("absent",))
         add("unknown_comment_mode", IC, section={"include_comments": "sometimes"}, names_in_msg=["sometimes"], tags={"cfg:comments"})
+        # values of other TOML types are not comment modes either (1 == True in Python: only real booleans are the deprecated spelling)
+        for bad_mode in (1, 0, 1.0, 0.0, 2, "True", "", ["stable"]):
+            add(f"unknown_comment_mode:{bad_mode!r}", IC, section={"include_comments": bad_mode}, tags={"cfg:comments", "comment_mode_other_type"}, states=("absent", "previous_generation"))
         add("scalar_without_type", MC, section={"scalars": {"Date": {"parse": "x.parse"}}}, names_in_msg=["type"], tags={"cfg:scalar"})
         add("header_env_unset", IC, section={"schema_path": None, "remote_schema_url": "http://localhost:1/graphql", "remote_schema_headers": {"Authorization": "$VERIF_UNSET_VARIABLE"}},
             names_in_msg=["VERIF_UNSET_VARIABLE"], tags={"cfg:header"})
@@ -181,6 +184,13 @@ def build_cases(tier):
         tags={"positive", "plugin_processed_schema"})
     add("valid_operation_with_hiding_plugin", "ok", section={"plugins": [hide]}, schema=internal_schema, states=("absent",), tags={"positive", "plugin_processed_schema"})
     add("invalid_operation:without_the_adding_plugin", "InvalidOperationForSchema", queries=VALID_QUERY + "query GetAdded { addedByPlugin }\n", states=("absent",), tags={"invalid_operation", "plugin_processed_schema"})
+    # the codegen-only @mixin directive is only defined for fields and fragment definitions, with the arguments `from` and `import`
+    MX = '@mixin(from: ".m", import: "M")'
+    for mname, q in (("on_operation", f"query GetUser($id: ID!) {MX} {{ user(id: $id) {{ id }} }}\n"), ("on_inline_fragment", f"query GetNode {{ node {{ ... on User {MX} {{ id }} }} }}\n"),
+                     ("on_fragment_spread", f"query GetUser($id: ID!) {{ user(id: $id) {{ ...F {MX} }} }}\nfragment F on User {{ id }}\n"),
+                     ("unknown_argument", 'query GetUser($id: ID!) { user(id: $id) @mixin(from: ".m", import: "M", as: "Other") { id } }\n'),
+                     ("on_variable_definition", f"query GetUser($id: ID! {MX}) {{ user(id: $id) {{ id }} }}\n")):
+        add(f"invalid_operation:mixin_{mname}", "InvalidOperationForSchema", queries=q, states=("absent", "previous_generation"), tags={"invalid_operation", "mixin_misuse", f"mixin:{mname}"})
     # the --config option: the selected file decides, whatever a pyproject.toml lying next to it says (both strategies)
     for strat, extra in (("client", {}), ("graphqlschema", {"target_file_path": "schema_out.py"})):
         for decoy_label, decoy in (("none", None), ("invalid", "[tool.ariadne-codegen]\nschema_path = \"does_not_exist.graphql\"\nqueries_path = \"nope\"\ntarget_file_path = \"x.txt\"\n"),
